@@ -36,9 +36,26 @@ def is_private(n):
     return n.startswith("-") or n.startswith("_")
 
 
+def url_segs(u):
+    return list(u[4]) if len(u) > 4 else []
+
+
 def url_text(u):
-    base, us, ext, dot = u
-    return ("./" if dot else "") + ("_" if us else "") + base + (".scss" if ext else "")
+    base, us, ext, dot = u[:4]
+    return ("./" if dot else "") + "/".join(url_segs(u) + [("_" if us else "") + base]) + (".scss" if ext else "")
+
+
+def url_enc(u):
+    return ("E" if u[2] else "N") + ":" + "/".join(url_segs(u)) + ":" + ("_" if u[1] else "") + u[0]
+
+
+def mod_dir(m):
+    return [c for c in (m.get("dir") or "").split("/") if c]
+
+
+def mod_relpath(m):
+    """path below the project root, e.g. p/x/_a.scss"""
+    return "/".join(["p"] + mod_dir(m) + [("_" if m["partial"] else "") + (m.get("alias_of") or m["name"]) + ".scss"])
 
 
 def vis_text(v):
@@ -116,15 +133,14 @@ def render(proj):
         if any(s[0] in ("P", "K") for s in m["body"]):
             lines.append('@use "sass:meta";')
         lines += [stmt_text(m["name"], s) for s in m["body"]]
-        fname = DIR + ("_" if m["partial"] else "") + m["name"] + ".scss"
-        files[fname] = "\n".join(lines) + "\n"
+        files[mod_relpath(m)] = "\n".join(lines) + "\n"
     return files
 
 
 def entry_path(proj):
     for m in proj["mods"]:
         if m["name"] == proj["entry"]:
-            return DIR + ("_" if m["partial"] else "") + m["name"] + ".scss"
+            return mod_relpath(m)
     return DIR + proj["entry"] + ".scss"
 
 
@@ -144,14 +160,14 @@ def enc_stmt(st):
         return [k]
     if k == "U":
         _, u, ns, cfg = st
-        out = ["U", ("_" if u[1] else "") + u[0], ns, str(len(cfg))]
+        out = ["U", url_enc(u), ns, str(len(cfg))]
         for n, v in cfg:
             out += [n, str(v)]
         return out
     if k == "W":
         _, u, pfx, vis, cfg = st
         vs = "A" if vis[0] == "A" else f"{vis[0]}:{ids(vis[1])}:{ids(vis[2])}"
-        out = ["W", ("_" if u[1] else "") + u[0], pfx or "-", vs, str(len(cfg))]
+        out = ["W", url_enc(u), pfx or "-", vs, str(len(cfg))]
         for n, v, g in cfg:
             out += [n, str(v), "1" if g else "0"]
         return out
@@ -165,9 +181,10 @@ def enc_stmt(st):
 
 
 def enc_proj(proj, sw):
-    toks = ["module", "run", sw, proj["entry"], str(len(proj["mods"]))]
+    lps = ",".join(proj.get("load_paths") or []) or "-"
+    toks = ["module", "run", sw, proj["entry"], "1" if proj.get("lexical") else "0", lps, str(len(proj["mods"]))]
     for m in proj["mods"]:
-        toks += ["M", m["name"], "1" if m["partial"] else "0", str(len(m["body"]))]
+        toks += ["M", m["name"], mod_relpath(m)[:-len(".scss")], str(len(m["body"]))]
         for s in m["body"]:
             toks += enc_stmt(s)
     return " ".join(toks)
@@ -320,12 +337,39 @@ class Gen:
         self.pid += 1
         return self.pid
 
-    def spelling(self, name, partial, allow_bad=False):
+    def spelling(self, name, partial, allow_bad=False, importer=None):
         r = self.rng
         us = partial and r.random() < 0.3
         if allow_bad and not partial and r.random() < 0.5:
             us = True
-        return (name, us, r.random() < 0.25, r.random() < 0.25)
+        ext, dot = r.random() < 0.25, r.random() < 0.25
+        dirs = getattr(self, "dirs", None)
+        if not dirs or importer is None:
+            return (name, us, ext, dot)
+        src, dst = dirs[importer], dirs[name]
+        k = 0
+        while k < len(src) and k < len(dst) and src[k] == dst[k]:
+            k += 1
+        segs = [".."] * (len(src) - k) + dst[k:]
+        x = r.random()
+        if ["p"] + dst in self.lps and src != dst and x < 0.6:
+            segs, ext = [], False                     # found through a load path (a `.scss` URL never consults them)
+            self.feat.add("via-load-path")
+        elif x < 0.75 or not self.lexical and x < 0.97:
+            pass                                      # the plain relative spelling
+        else:
+            # a detour through an existing directory: `x/../…` (resolves only where canonicalize resolves `..`)
+            here = src
+            subs = sorted({tuple(d[:len(here) + 1]) for d in dirs.values() if len(d) > len(here) and d[:len(here)] == here})
+            if subs:
+                segs = [subs[r.randrange(len(subs))][-1], ".."] + segs
+                self.feat.add("detour-spelling")
+            elif here:
+                segs = ["..", here[-1]] + segs
+                self.feat.add("detour-spelling")
+        if segs:
+            self.feat.add("subdir-url")
+        return (name, us, ext, dot and not (segs and segs[0] == ".."), segs)
 
     def module(self, name, earlier, info, feat, is_entry=False):
         """info: name -> {"vars":{n:guarded}, "fns":[…], "mixins":[…], "vis": approx visible names per kind}"""
@@ -380,7 +424,7 @@ class Gen:
                         cfg.append(("zz", self.v(), r.random() < 0.5))
                     if cfg:
                         feat.add("forward-with")
-                head.append(("W", self.spelling(t, ti["partial"]), pfx, visr, cfg))
+                head.append(("W", self.spelling(t, ti["partial"], importer=name), pfx, visr, cfg))
                 self.targets.add(t)
                 allowed = lambda lst, n: (visr[0] == "A" or (visr[0] == "S" and n in lst) or (visr[0] == "H" and n not in lst))
                 for n, g in ti["vis"]["v"].items():
@@ -424,7 +468,7 @@ class Gen:
                     if r.random() < 0.08:
                         cfg.append(("zz", self.v()))
                     feat.add("use-with")
-                head.append(("U", self.spelling(t, ti["partial"]), ns, cfg))
+                head.append(("U", self.spelling(t, ti["partial"], importer=name), ns, cfg))
                 self.targets.add(t)
                 if key is not None:
                     nss.setdefault(key, t)
@@ -498,10 +542,49 @@ class Gen:
         n = r.choice([1, 2, 2, 3, 3, 4, 4, 5])
         names = MODS[:n]
         info, mods, feat = {}, [], set()
+        self.feat = feat
+        self.dirs, self.lps, self.lexical = None, [], False
+        layout = r.random()
+        if layout < 0.35:
+            # modules in sub-directories; optionally a load path; optionally on the real disk (canonicalize resolves `..`)
+            pool_ = [[], [], ["x"], ["x", "y"], ["z"], ["lib"]]
+            self.dirs = {nm: list(r.choice(pool_)) for nm in names}
+            self.dirs["main"] = list(r.choice([[], [], ["x"]]))
+            if any(d == ["lib"] for d in self.dirs.values()) and r.random() < 0.8:
+                self.lps = [["p", "lib"]] + ([["p", "z"]] if r.random() < 0.3 else [])
+            self.lexical = r.random() < 0.55
+            feat.add("dirs")
+            if self.lexical:
+                feat.add("disk")
         for i, nm in enumerate(names):
             mods.append(self.module(nm, names[:i], info, feat))
         mods.append(self.module("main", names, info, feat, is_entry=True))
         proj = {"entry": "main", "mods": mods}
+        if self.dirs:
+            for m in mods:
+                m["dir"] = "/".join(self.dirs[m["name"]])
+            proj["load_paths"] = ["/".join(lp) for lp in self.lps]
+            proj["lexical"] = self.lexical
+            if not self.lexical:
+                # Fs::canonicalize is the identity on the in-memory Fs: `x/../a.scss` is a file only if that literal path
+                # is a key, and then it is ANOTHER module than `a.scss`.  Register such keys for leaf targets (a copy under
+                # a new name, so the two are told apart in the output); the other `..` URLs stay unresolvable.
+                by_name = {m["name"]: m for m in mods}
+                extra, seen = [], set()
+                for m in mods:
+                    for st in m["body"]:
+                        if st[0] in ("U", "W") and len(st[1]) > 4 and ".." in st[1][4]:
+                            t = by_name.get(st[1][0])
+                            lit = "/".join(mod_dir(m) + list(st[1][4]))
+                            if t is None or any(x[0] in ("U", "W") for x in t["body"]) or (lit, t["name"]) in seen or r.random() < 0.25:
+                                continue
+                            seen.add((lit, t["name"]))
+                            extra.append({"name": t["name"] + "q" + str(len(extra)), "partial": t["partial"], "dir": lit,
+                                          "body": list(t["body"]), "alias_of": t["name"]})
+                            feat.add("literal-dotdot-key")
+                # the file stem of an alias is the target's, its module name is new
+                proj["mods"] = mods[:-1] + extra + mods[-1:]
+        self.dirs = None
         # error / cycle injections
         rr = r.random()
         if rr < 0.08 and n >= 1:
@@ -900,8 +983,28 @@ def direct_checks(proj, ob, once_answer):
 
 def evaluate(ck, pool, projs, tier):
     files = [render(p) for p in projs]
-    jobs = [compile_job(files=f, entry=entry_path(p)) for f, p in zip(files, projs)]
+    jobs, roots = [], []
+    for i, (f, p) in enumerate(zip(files, projs)):
+        if p.get("lexical"):
+            # the real disk: Fs::canonicalize resolves `..`
+            import os
+            import shutil
+            from vlib import BUILD
+            root = os.path.join(BUILD, "c12-disk", f"{os.getpid()}-{i}")
+            shutil.rmtree(root, ignore_errors=True)
+            for rel, text in f.items():
+                os.makedirs(os.path.dirname(os.path.join(root, rel)), exist_ok=True)
+                with open(os.path.join(root, rel), "w") as fh:
+                    fh.write(text)
+            roots.append(root)
+            jobs.append({"mode": "compile", "entry": os.path.join(root, entry_path(p)), "fs": "std",
+                         "options": {"load_paths": [os.path.join(root, lp) for lp in p.get("load_paths") or []]}})
+        else:
+            jobs.append(compile_job(files=f, entry=entry_path(p), load_paths=list(p.get("load_paths") or [])))
     answers = pool.map(jobs, timeout=20)
+    for root in roots:
+        import shutil
+        shutil.rmtree(root, ignore_errors=True)
     models = run_models(projs, ["now", "spec"])
     obs = [observe_impl(a) for a in answers]
     tri = [triangle_lines(p, o) for p, o in zip(projs, obs)]
@@ -1023,7 +1126,27 @@ ALIAS_ARGS = {
     "global-variable-exists": ['"zz"'], "variable-exists": ['"zz"'], "function-exists": ['"zz"'], "mixin-exists": ['"zz"'],
     "get-function": ['"red"'], "call": ['get-function("red"), #123456'], "divide": ["6, 3"],
 }
-ALIAS_SKIP = {"random", "unique-id"}          # not functions of their arguments
+ALIAS_ARGS.update({"random": ["1"], "join": ["(a b), (c d)", "(a, b), (c d), space, true"], "nth": ["(a b c), 2", "(a b c), -1"],
+                   "mix": ["red, blue, 30%", "#123, #456"], "min": ["1, 2", "3px, 1px, 2px"], "str-slice": ['"abcd", 2, 3', '"abcd", -2'],
+                   "map-get": ["(a: 1), a", "(a: (b: 2)), a, b"], "append": ["(a b), c", "(a b), c, comma"],
+                   "invert": ["#123456", "#123456, 50%"], "round": ["2.5", "-2.5"], "percentage": ["0.5", "1.25"]})
+ALIAS_SKIP = set()
+# calls that need a context of their own: {m}.{f} / {g} is substituted for CALL
+ALIAS_TEMPLATES = {
+    "unique-id": ["a {{ r: qq.type-of(CALL()); }}"],                                    # not a function of its arguments: compare the type
+    "content-exists": ["@mixin t {{ r: CALL(); @content; }} a {{ @include t; }} b {{ @include t {{ x: y; }} }}"],
+    "keywords": ["@function k($a...) {{ @return qq.inspect(CALL($a)); }} a {{ r: k($x: 1, $y: b); }}"],
+}
+MODULE_ONLY_ARGS = {
+    ("list", "slash"): "1, 2", ("map", "deep-merge"): "(a: (b: 1)), (a: (c: 2))", ("map", "deep-remove"): "(a: (b: 1)), a, b",
+    ("math", "acos"): "0.5", ("math", "asin"): "0.5", ("math", "atan"): "1", ("math", "atan2"): "1, 2", ("math", "clamp"): "1, 2, 3",
+    ("math", "cos"): "0", ("math", "hypot"): "3, 4", ("math", "log"): "8, 2", ("math", "pow"): "2, 3", ("math", "sin"): "0",
+    ("math", "sqrt"): "4", ("math", "tan"): "0", ("meta", "calc-args"): "calc(1px + 10%)", ("meta", "calc-name"): "calc(1px + 10%)",
+    ("meta", "module-functions"): '"qq"', ("meta", "module-variables"): '"qq"',
+    ("color", "blackness"): "#123456", ("color", "whiteness"): "#123456", ("color", "hwb"): "120, 30%, 50%",
+    ("map", "set"): "(a: 1), b, 2", ("math", "div"): "6, 3", ("meta", "global-variable-exists"): '"zz"', ("string", "split"): '"a b", " "',
+}
+NONDET_NOARGS = {"random", "unique-id"}
 
 
 def check_aliases(ck, pool):
@@ -1041,24 +1164,56 @@ def check_aliases(ck, pool):
     for m, f, g in pairs:
         if g in ALIAS_SKIP:
             continue
-        for args in ALIAS_ARGS.get(g, []) + ["", "1, 2, 3, 4, 5, 6"]:
+        for tmpl in ALIAS_TEMPLATES.get(g, []):
+            a = f'@use "sass:{m}" as q; @use "sass:meta" as qq; ' + tmpl.replace("CALL", f"q.{f}").format()
+            b = '@use "sass:meta" as qq; ' + tmpl.replace("CALL", g).format()
+            jobs += [compile_job(a, syntax="scss"), compile_job(b, syntax="scss")]
+            meta.append((m, f, g, "(template)"))
+        for args in ALIAS_ARGS.get(g, []) + ([] if g in NONDET_NOARGS else [""]) + ["1, 2, 3, 4, 5, 6"]:
             a = f'@use "sass:{m}" as q; @use "sass:meta" as qq; a {{ r: qq.inspect(q.{f}({args})); }}'
             b = f'@use "sass:meta" as qq; a {{ r: qq.inspect({g}({args})); }}'
             jobs += [compile_job(a, syntax="scss"), compile_job(b, syntax="scss")]
             meta.append((m, f, g, args))
+    only = sorted(MODULE_ONLY_ARGS.items())
+    for (m, f), args in only:
+        jobs.append(compile_job(f'@use "sass:{m}" as q; @use "sass:meta" as qq; a {{ r: qq.inspect(q.{f}({args})); }}', syntax="scss"))
     answers = pool.map(jobs, timeout=10)
     failing = []
+    ok_pairs = set()
     for i, (m, f, g, args) in enumerate(meta):
         x, y = answers[2 * i], answers[2 * i + 1]
         ox = (x.get("status"), x.get("css") if x.get("status") == "ok" else (x.get("err") or {}).get("message"))
         oy = (y.get("status"), y.get("css") if y.get("status") == "ok" else (y.get("err") or {}).get("message"))
         ck.count(("alias", m, f, g, args), args != "")
         ck.hist("alias-call:" + ("ok" if ox[0] == "ok" else "err"))
+        if ox[0] == "ok" and oy[0] == "ok":
+            ok_pairs.add((m, f, g))
         if ox != oy:
             failing.append({"project": {"files": {"p/main.scss": f'@use "sass:{m}" as q; a {{ r: q.{f}({args}) vs {g}({args}) }}'},
                                         "entry": "p/main.scss"},
                             "feat": ["alias"], "failures": [f"builtin alias differs: {m}.{f}({args}) -> {ox}; {g}({args}) -> {oy}"],
                             "impl_observation": [ox, oy], "tags": [], "size": 1, "proj": None})
+    # every alias pair must have been exercised by at least one type-correct call (both spellings succeed)
+    missing = [p_ for p_ in pairs if p_ not in ok_pairs and p_[2] not in ALIAS_SKIP]
+    ck.cov["alias_pairs_with_successful_call"] = len(ok_pairs)
+    if missing:
+        ck.notes.append(f"alias pairs without a type-correct sample call: {missing}")
+        ck.unproved("correspondence-broken", {"why": "built-in alias pairs without a successful sampled call", "pairs": missing})
+    # functions that exist only in a module (no global alias): they must at least be there
+    known_only = set(MODULE_ONLY_ARGS)
+    for ((m, f), args), ans in zip(only, answers[2 * len(meta):]):
+        ck.count(("module-only", m, f), True)
+        ck.hist("module-only-call:" + ("ok" if ans.get("status") == "ok" else "err"))
+        if ans.get("status") != "ok":
+            failing.append({"project": {"files": {"p/main.scss": f'@use "sass:{m}" as q; a {{ r: q.{f}({args}) }}'}, "entry": "p/main.scss"},
+                            "feat": ["alias"], "failures": [f"module-only function {m}.{f}({args}) fails: {(ans.get('err') or {}).get('message')}"],
+                            "impl_observation": ans.get("status"), "tags": [], "size": 1, "proj": None})
+    table = driver(["module only"])[0]
+    if table.startswith("ok"):
+        tbl = {tuple(t.split(".", 1)) for t in table[3:].split()}
+        if tbl - known_only:
+            ck.notes.append(f"module-only functions without a sample: {sorted(tbl - known_only)}")
+            ck.unproved("correspondence-broken", {"why": "module-only built-in functions without a sampled call", "functions": sorted(tbl - known_only)})
     ck.cov["alias_pairs"] = len(pairs)
     return failing
 
@@ -1099,6 +1254,63 @@ def check_disk(ck, pool):
                         "feat": ["disk"], "failures": [f"symlink cycle not reported: {a2.get('status')} {err_class(a2)}"],
                         "impl_observation": a2.get("status"), "tags": [], "size": 2, "proj": None})
     shutil.rmtree(root, ignore_errors=True)
+    return failing
+
+
+def check_loadcss_import(ck, pool):
+    """`meta.load-css` and `@import` of a module that has @forward rules are outside the Lean model; fixed scenarios state
+    what the property says about them and are judged on grass's own output.
+    What holds for the code: modules reached by @use/@forward from a load-css'ed or imported sheet are still evaluated
+    once; @import makes forwarded members (with prefix, show/hide) visible to the importer, shares the upstream variable
+    and configures `!default` variables implicitly.  What does not (known finding C12-loadCssIsImport): load-css is
+    implemented as an import into the caller (meta.rs:70 `visit_stylesheet`; the `load_module` call is commented out):
+    the sheet is re-evaluated on every call, its members and the namespaces of its @use rules leak into the caller (so a
+    second load-css of a sheet with @use fails), and `$with` is ignored."""
+    B = "$x: b-x !default;\n@debug dbg__b;\nm-b { x: $x; }\n"
+    A = '@use "b";\n$y: a-y !default;\n@function fa() { @return a-f; }\n@debug dbg__a;\nm-a { y: $y; bx: b.$x; }\n'
+    MID = '@forward "a";\n@forward "b" as q-* show $q-x;\nm-mid { k: v; }\n'
+    meta = '@use "sass:meta";\n'
+    cases = [
+        # (name, files, expectation, tag)   expectation: function(ob, ans) -> failure text or None
+        ("load-css: used modules evaluated once", {"p/main.scss": meta + '@use "b" as mb;\n@include meta.load-css("a");\nm-main { k: mb.$x; }\n', "p/a.scss": A, "p/b.scss": B},
+         lambda ob, a: None if ob["status"] == "ok" and ob["dbg"].count("b") == 1 and ob["css"].count("C:b") == 1 else f"module b: {ob}", None),
+        ("load-css: css included", {"p/main.scss": meta + '@include meta.load-css("b");\nm-main { k: v; }\n', "p/b.scss": B},
+         lambda ob, a: None if ob["status"] == "ok" and ob["css"] == ["C:b", "C:main"] else f"{ob}", None),
+        ("load-css twice: sheet evaluated once, css twice", {"p/main.scss": meta + '@include meta.load-css("b");\n@include meta.load-css("b");\n', "p/b.scss": B},
+         lambda ob, a: None if ob["status"] == "ok" and ob["dbg"].count("b") == 1 and ob["css"].count("C:b") == 2 else f"evaluated {ob['dbg'].count('b')}x: {ob}", "loadCssIsImport"),
+        ("load-css twice of a sheet with @use", {"p/main.scss": meta + '@include meta.load-css("a");\n@include meta.load-css("a");\n', "p/a.scss": A, "p/b.scss": B},
+         lambda ob, a: None if ob["status"] == "ok" else f"{ob['err']}", "loadCssIsImport"),
+        ("load-css exposes no members", {"p/main.scss": meta + '@include meta.load-css("b");\nm-main { k: $x; }\n', "p/b.scss": B},
+         lambda ob, a: None if ob["err"] == "undefVar" else f"$x of the loaded sheet is visible to the caller: {ob}", "loadCssIsImport"),
+        ("load-css exposes no namespaces", {"p/main.scss": meta + '@include meta.load-css("a");\nm-main { k: b.$x; }\n', "p/a.scss": A, "p/b.scss": B},
+         lambda ob, a: None if ob["err"] == "noSuchNs" else f"namespace b of the loaded sheet is visible to the caller: {ob}", "loadCssIsImport"),
+        ("@import: forwarded members visible, prefix and show respected",
+         {"p/main.scss": '@import "mid";\np1 { r: $y; }\np2 { r: $q-x; }\np3 { r: fa(); }\n', "p/mid.scss": MID, "p/a.scss": A, "p/b.scss": B},
+         lambda ob, a: None if ob["status"] == "ok" and (a.get("css") or "").count("r: a-y") == 1 and "r: b-x" in a["css"] and "r: a-f" in a["css"]
+         and ob["dbg"] == ["b", "a"] else f"{ob} {a.get('css')}", None),
+        ("@import: not forwarded = not visible", {"p/main.scss": '@import "mid";\np1 { r: $x; }\n', "p/mid.scss": MID, "p/a.scss": A, "p/b.scss": B},
+         lambda ob, a: None if ob["err"] == "undefVar" else f"{ob}", None),
+        ("@import + @use: upstream evaluated once, variable shared",
+         {"p/main.scss": '@use "a";\n@import "mid";\n$y: new;\np1 { r: a.$y; }\np2 { r: $y; }\n', "p/mid.scss": MID, "p/a.scss": A, "p/b.scss": B},
+         lambda ob, a: None if ob["status"] == "ok" and ob["dbg"] == ["b", "a"] and (a.get("css") or "").count("r: new") == 2 else f"{ob} {a.get('css')}", None),
+        ("@import: implicit configuration of !default variables",
+         {"p/main.scss": '$y: main-y;\n@import "mid";\n', "p/mid.scss": MID, "p/a.scss": A, "p/b.scss": B},
+         lambda ob, a: None if ob["status"] == "ok" and "y: main-y" in (a.get("css") or "") else f"{ob} {a.get('css')}", None),
+    ]
+    answers = pool.map([compile_job(files=f, entry="p/main.scss") for _, f, _, _ in cases], timeout=20)
+    failing = []
+    for (name, files, expect, tag), ans in zip(cases, answers):
+        ob = observe_impl(ans)
+        if ob["css"] is None:
+            ob["css"] = []
+        ck.count(("loadcss-import", name), True)
+        bad = expect(ob, ans)
+        ck.hist("scenario:" + ("holds" if bad is None else "fails") + (":" + tag if tag else ""))
+        if bad is not None:
+            failing.append({"project": {"files": files, "entry": "p/main.scss"}, "feat": ["load-css/import scenario"],
+                            "failures": [f"{name}: {bad}"], "impl_observation": str(ob), "tags": [tag] if tag else [], "size": 3, "proj": None})
+        elif tag:
+            ck.notes.append(f"scenario `{name}` (known finding {tag}) now behaves as the property says")
     return failing
 
 
@@ -1148,10 +1360,15 @@ def run(tier, seed):
                       "variables (!default or not), functions (constant or getter of an own variable), mixins, a @debug and a CSS "
                       "marker, assignments through namespaces, guarded probes of candidate member names through every namespace, "
                       "module-variables/-functions key sets, plus injected cycles / missing files / private references / unknown or "
-                      "non-default or late configuration, and variants with one unguarded (possibly failing) reference. A project "
+                      "non-default or late configuration, and variants with one unguarded (possibly failing) reference; 35% of the projects put "
+                      "their modules in sub-directories (relative URLs with `..`, detours `x/../`, load paths; in memory, where "
+                      "Fs::canonicalize is the identity and a `..` path is a file only as a literal key = another module, or on "
+                      "the real disk, where it is the same module); three-level configuration chains; repeated assignments "
+                      "through forwarders read back through every alias; fixed load-css / @import-forwards scenarios; every "
+                      "built-in alias pair called with type-correct arguments. A project "
                       "is distinct by its encoded AST and non-trivial when it has >= 2 modules and at least one @use/@forward.")
-    ck.assumptions = ["one directory over the in-memory Fs (Fs::canonicalize is the identity there): path spellings limited to "
-                      "`name`, `name.scss`, `./name`, `_name`", "member bodies are constants / getters; values are opaque tokens",
+    ck.assumptions = ["paths: `.scss` files only, no index files; real-disk projects have no symlinks except the two fixed layouts; "
+                      "module file names contain no `_` except the partial marker", "member bodies are constants / getters; values are opaque tokens",
                       "grass output observed through tools/cssread.py, @debug messages through the Logger"]
     import translate_module_aliases
     tok, tmsg = translate_module_aliases.main()
@@ -1187,6 +1404,7 @@ def run(tier, seed):
             failing += judge(ck, evaluate(ck, pool, vs, tier))
     failing += check_aliases(ck, pool)
     failing += check_disk(ck, pool)
+    failing += check_loadcss_import(ck, pool)
     unknown = [f for f in failing if not f["tags"]]
     if (not ck.proof["ok"] or ck.cov["model_disagreements"]) and not unknown and tier == "quick":
         log("[C12] proof or correspondence broken: enlarging the search")
